@@ -102,10 +102,18 @@ class ProbeAlgo(Scheduling):
     """Per-simulation proxy around a (possibly shared) scheduling-algorithm object: forwards
     run() through the harness's observer, everything else unchanged."""
 
+    _OWN = ('inner', '_run')
+
     def __init__(self, inner, run):
-        super().__init__()
-        self.inner = inner
-        self._run = run
+        object.__setattr__(self, 'inner', inner)
+        object.__setattr__(self, '_run', run)
+
+    def __setattr__(self, name, value):
+        # the simulation may configure the algorithm object it was given: pass it through
+        if name in self._OWN:
+            object.__setattr__(self, name, value)
+        else:
+            setattr(self.inner, name, value)
 
     def __repr__(self):
         return repr(self.inner)
